@@ -7,13 +7,21 @@ signal changing only at multiples of P are given to both *real* interpretations:
    discrete offline evaluate({'time':[0,1,…],'x':[v0,v1,…]})   (period P, bounds written as durations)
 and must agree at every k with k + horizon < n.  Both are also compared with the two models
 (rho at k, rhoD at k*P), which ties the theorem C19_sampled to the code.
+
+Sub-stream `grid/reuse`: ONE dense-time and ONE discrete-time specification object of the same modular specification (named
+sub-specifications: several assertions, as text or through add_sub_spec) are put through the same sequence of evaluate()
+calls on a batch of 2-3 independent grid signals.  Some of the earlier signals carry one sample on which a later assertion
+divides by zero: evaluate() raises there (in both interpretations), the driver of the batch goes on with the next signal.
+For every well-formed signal of the batch the same comparison as in `grid` is made (dense at k*P = discrete at k for
+k + horizon < n, the discrete values also against rho of the inlined formula); the signals that raise are not judged.
 """
 from fractions import Fraction
 from .. import common, formula as F, impl, disc, dense as D
 from ..engine import Violation, Ctx
 
 RULE = ("formulas of the C19 fragment (depth<=4, bounds 0..6 periods), P in {1, 0.25, 0.5} time units, traces of horizon+2..horizon+12 samples over "
-        "dyadic values (random, piecewise monotone runs after extreme samples, two-valued), 1-3 variables; compared at all k with k+hor<n. distinct by (spec, P, data); non-trivial when some settled "
+        "dyadic values (random, piecewise monotone runs after extreme samples, two-valued), 1-3 variables; compared at all k with k+hor<n; a sub-stream `grid/reuse` (one dense and one discrete "
+        "specification object with 1-3 named sub-specifications evaluating 2-3 grid signals in a row, earlier signals possibly raising from a division by 0 in a later assertion). distinct by (spec, P, data); non-trivial when some settled "
         "value is finite or the settled values are not constant.")
 EXPLANATION = ("theorem C19_sampled: for grid-aligned bounds and grid step signals rhoD at k*P equals rho at sample k whenever "
                "k + hor < n (Lean, via the step-function theory of RtamtProofs/Dense/Step.lean). Correspondence: the two real "
@@ -155,7 +163,252 @@ def explore(ctx, rng, count):
                 return
 
 
+# ---------------------------------------------------------------------------------------------------------------------------
+# grid/reuse: one dense and one discrete specification object, named sub-specifications, several grid signals in a row
+# ---------------------------------------------------------------------------------------------------------------------------
+DIV_GOOD = (-2.0, -1.0, -0.5, 0.5, 1.0, 2.0, 4.0)      # divisors of the well-formed signals (quotients of dyadic values are exact)
+
+
+def is_term(f, env):
+    """The body is an arithmetic expression (not a formula); names are looked up in `env`."""
+    if f[0] == "v":
+        return is_term(env[f[1]], env) if f[1] in env else True
+    return f[0] == "c" or (f[0] == "u" and f[1] != "not") or (f[0] == "b" and f[1] in F.ARITH)
+
+
+def gen_reuse_case(rng):
+    """A modular specification of the C19 fragment `p0 = ..; [p1 = ..;] out = ..` in which an assertion after the first one
+    compares a quotient `t / v` with a constant, and a batch of grid signals for one object of it per interpretation: the
+    divisor v is never 0 in the well-formed signals and 0 at one sample of the others (no robustness is defined there: those
+    signals are not judged).  -> case without horizon (`finish_reuse_cases` adds it)."""
+    from .. import modular as M
+    g = D.DGen(rng, D.VARS, ALLOW, max_bound=rng.choice([1, 2, 4]))
+    f = g.formula(2)
+    for _ in range(20):
+        f = gen_formula(rng) if rng.random() < 0.5 else g.formula(rng.choice([2, 2, 3]))
+        if 4 <= F.size(f) <= 30 and F.variables(f):
+            break
+    defs = M.add_repeats(rng, M.decompose(rng, f, prob=0.5, limit=3))
+    if len(defs) == 1:
+        other = g.formula(rng.choice([0, 1]))
+        ref = rng.choice([("v", "p0"), ("u", "not", ("v", "p0"))])
+        defs = [("p0", f), ("out", ("b", rng.choice(["and", "or", "implies"]), ref, other) if rng.random() < 0.6
+                        else ("b", rng.choice(["and", "or", "implies"]), other, ref))]
+    pv = rng.choice(D.VARS[:2])
+    num = rng.choice([("c", 1.0), ("c", 1.0), ("c", 2.0), ("v", rng.choice([v for v in D.VARS if v != pv]))])
+    guard = ("b", rng.choice(["le", "ge", "lt", "gt"]), ("b", "div", num, ("v", pv)), ("c", rng.choice([0.5, 1.0, 2.0, 3.0])))
+    # never the first assertion (a named sub-specification is evaluated before the one that raises), and an assertion that
+    # names a formula
+    k = rng.choice([i for i in range(1, len(defs)) if not is_term(defs[i][1], dict(defs))] or [len(defs) - 1])
+    nm, body = defs[k]
+    op = rng.choice(["and", "or", "implies"])
+    defs = defs[:k] + [(nm, ("b", op, body, guard) if rng.random() < 0.6 else ("b", op, guard, body))] + defs[k + 1:]
+    inl = M.inline(defs)
+    return {"defs": defs, "inl": inl, "f": inl["out"], "vars": sorted(F.variables(inl["out"])), "pv": pv,
+            "P": rng.choice([Fraction(1), Fraction(1, 4), Fraction(1, 2)]), "style": rng.choice(["text", "text", "sub_spec"]),
+            "glitch": list(rng.choice([(1, 0), (1, 0), (1, 0), (0, 1, 0), (1, 0, 0), (1, 1, 0), (0, 0), (0, 0, 0)]))}   # 1 = a signal that raises
+
+
+def finish_reuse_cases(rng, cases):
+    """Horizon of the inlined formula (one driver call for all cases), then the signals of every batch."""
+    hs = [int(o[3:].split("|")[0]) for o in common.driver_run(["past | " + F.to_proto(c["f"]) for c in cases])] if cases else []
+    for c, h in zip(cases, hs):
+        c["h"] = h
+        c["traces"] = []
+        for glitch in c["glitch"]:
+            n = min(h, 12) + rng.randint(2, 12)
+            data = {v: gen_values(rng, n) for v in c["vars"]}
+            data[c["pv"]] = [rng.choice(DIV_GOOD) for _ in range(n)]
+            if glitch:
+                data[c["pv"]][rng.randrange(n)] = 0.0
+            c["traces"].append(data)
+        c["stream"] = "grid/reuse" + ("/after-exception" if any(c["glitch"]) else "")
+    return cases
+
+
+def reuse_lines(c):
+    bt = bound_txt(c["P"])
+    return ["%s = %s;" % (nm, F.to_text(b, bound=bt)) for nm, b in c["defs"]]
+
+
+def run_reuse(c):
+    """One dense-time and one discrete-time specification object; one evaluate() per signal on each, in the order given; an
+    exception of one evaluation is recorded and the batch goes on.  Every result is copied when it is returned.
+    -> ('ok', ([dense outcome per signal], [discrete outcome per signal])) | outcome of building the objects."""
+    import copy
+    from ..impl import RTAMTException
+    lines, names, vs, P = reuse_lines(c), [nm for nm, _ in c["defs"][:-1]], c["vars"], c["P"]
+
+    def build(kind, **kw):
+        if c["style"] == "text":
+            spec = impl.make_spec(kind, "\n".join(lines), vs, extra_decl=names, **kw)
+        else:
+            spec = impl.make_spec(kind, lines[-1], vs, extra_decl=names, sub_specs=lines[:-1], **kw)
+        spec.parse()
+        return spec
+
+    def attempt(call):
+        try:
+            return ("ok", copy.deepcopy(call()))
+        except (impl.CaseTimeout, common.HarnessError):
+            raise
+        except RTAMTException as e:
+            return ("rtamt", str(e))
+        except Exception as e:  # noqa: BLE001
+            return ("other", type(e).__name__, str(e)[:200])
+
+    def go():
+        dense, discrete = build("offc"), build("offd", sampling=(int(P * 1000), "ms", 0.1))
+        dn, dsc = [], []
+        for data in c["traces"]:
+            n = len(data[vs[0]])
+            dn.append(attempt(lambda: dense.evaluate(*[[v, D.py_sig([(P * k, data[v][k]) for k in range(n)])] for v in vs])))
+            ds = {"time": list(range(n))}
+            ds.update({v: list(data[v]) for v in vs})
+            dsc.append(attempt(lambda: discrete.evaluate(ds)))
+        return dn, dsc
+    return impl.guarded(go)
+
+
+def reuse_rep(c, j, dn, dsc):
+    data = c["traces"][j]
+    return {"spec": " ".join(reuse_lines(c)), "formula": F.to_proto(c["f"]), "P": str(c["P"]), "n": len(data[c["vars"][0]]), "data": data,
+            "horizon": c["h"], "impl_dense": dn, "impl_discrete": dsc,
+            "reuse": {"defs": [[nm, F.to_proto(b)] for nm, b in c["defs"]], "style": c["style"], "pv": c["pv"], "traces": c["traces"],
+                      "glitch": c["glitch"], "judged": j}}
+
+
+def check_reuse(ctx, cases, models=True):
+    """-> [(case, index of the judged signal, Violation | None)] for every well-formed signal of every batch: the comparison of
+    `check_case` (dense at k*P against discrete at k for k + horizon < n; discrete against rho of the inlined formula)."""
+    res, pend = [], []
+    for c in cases:
+        outs = run_reuse(c)
+        P, h, vs = c["P"], c["h"], c["vars"]
+        text = " ".join(reuse_lines(c))
+        if outs[0] != "ok":           # the objects could not be built / parsed
+            res.append((c, 0, Violation("building the specification objects raised %r: %s" % (outs[1:], text), reuse_rep(c, 0, outs, outs), stream=c["stream"])))
+            continue
+        for j, (data, glitch, dn, dsc) in enumerate(zip(c["traces"], c["glitch"], outs[1][0], outs[1][1])):
+            if glitch:                # a division by 0: no robustness is defined, nothing is claimed
+                ctx.count("reuse:signal-raises" if dn[0] != "ok" and dsc[0] != "ok" else "reuse:glitch-signal-evaluates")
+                continue
+            n = len(data[vs[0]])
+            rep = reuse_rep(c, j, dn, dsc)
+            rep["reuse"]["outcomes_before"] = [[a[0], b[0]] for a, b in zip(outs[1][0][:j], outs[1][1][:j])]
+            where = "%s   [signal %d of %d on one specification object per interpretation%s]" % (
+                text, j + 1, len(c["traces"]), ", after an evaluation that raised" if any(o[0] != "ok" for o in outs[1][0][:j] + outs[1][1][:j]) else "")
+            v = None
+            if dn[0] != "ok" or dsc[0] != "ok":
+                v = Violation("evaluation raised: dense %r, discrete %r: %s" % (dn[:2], dsc[:2], where), rep, stream=c["stream"])
+                res.append((c, j, v))
+                continue
+            dense_samples = D.samples_of(dn[1])
+            dv = [p[1] for p in dsc[1]]
+            settled = [k for k in range(n) if k + h < n]
+            for k in settled:
+                a, b = D.step_value(dense_samples, P * k), dv[k]
+                if a is None:
+                    v = Violation("the dense-time result has no value at the sampling instant t=%s (sample %d, horizon %d, n=%d), the "
+                                  "discrete-time robustness there is %r: %s" % (P * k, k, h, n, b, where), rep, stream=c["stream"])
+                    break
+                if a != a or b != b:
+                    continue
+                if not common.num_eq(a, b):
+                    v = Violation("at the sampling instant t=%s (sample %d, horizon %d, n=%d) the dense-time robustness is %r and the "
+                                  "discrete-time robustness is %r: %s" % (P * k, k, h, n, a, b, where), rep, stream=c["stream"])
+                    break
+            res.append((c, j, v))
+            if v is None:
+                pend.append((len(res) - 1, dv, settled, n, data, where, rep))
+    if models and pend:
+        outs = common.driver_run([disc.proto_case("rhot", res[i][0]["f"], data, n) for i, _, _, n, data, _, _ in pend])
+        for (i, dv, settled, n, data, where, rep), o in zip(pend, outs):
+            m_rho = disc.parse_model(o)
+            c = res[i][0]
+            if m_rho[0] == "ok":
+                for k in settled:
+                    if not common.num_eq(dv[k], m_rho[1][k]):
+                        res[i] = (c, res[i][1], Violation("discrete robustness at %d is %r, rho is %r: %s" % (k, dv[k], m_rho[1][k], where), rep, stream=c["stream"]))
+                        break
+            if res[i][2] is None and settled and (any(dv[k] not in (common.INF, -common.INF) for k in settled) or len({dv[k] for k in settled}) > 1):
+                ctx.nontrivial.add((where, str(c["P"]), tuple((v, tuple(data[v])) for v in c["vars"])))
+    return res
+
+
+def shrink_reuse(ctx, case, j):
+    """Smaller batch that still fails on its last signal: drop the signals after the judged one, then signals before it, then the
+    last samples of every signal (the horizon stays)."""
+    def fails(c):
+        try:
+            r = check_reuse(Ctx(ctx.id, ctx.tier, ctx.seed), [c], models=False)
+        except common.HarnessError:
+            return None
+        r = [v for (_, jj, v) in r if jj == len(c["traces"]) - 1 and isinstance(v, Violation)]
+        return r[0] if r else None
+    cur = dict(case, traces=case["traces"][:j + 1], glitch=case["glitch"][:j + 1])
+    best = fails(cur)
+    if best is None:
+        return None
+    budget = 24
+    i = 0
+    while i < len(cur["traces"]) - 1 and budget > 0:
+        cand = dict(cur, traces=cur["traces"][:i] + cur["traces"][i + 1:], glitch=cur["glitch"][:i] + cur["glitch"][i + 1:])
+        budget -= 1
+        v = fails(cand)
+        if v is not None:
+            cur, best = cand, v
+        else:
+            i += 1
+    for ti in range(len(cur["traces"])):
+        while budget > 0:
+            tr = cur["traces"][ti]
+            n = len(tr[cur["vars"][0]])
+            if n <= cur["h"] + 1 or (cur["glitch"][ti] and 0.0 not in tr[cur["pv"]][:n - 1]):
+                break
+            cand = dict(cur, traces=cur["traces"][:ti] + [{v: tr[v][:n - 1] for v in tr}] + cur["traces"][ti + 1:])
+            budget -= 1
+            v = fails(cand)
+            if v is None:
+                break
+            cur, best = cand, v
+    return best
+
+
+def explore_reuse(ctx, rng, count):
+    cases = finish_reuse_cases(rng, [gen_reuse_case(rng) for _ in range(count)])
+    for c in cases:
+        ctx.count("reuse:batches")
+        ctx.count("reuse:subspecs=%d" % (len(c["defs"]) - 1))
+        ctx.count("reuse:style=" + c["style"])
+    for c, j, v in check_reuse(ctx, cases):
+        ctx.evaluations += 1
+        ctx.count("stream:" + c["stream"])
+        ctx.count("P=%s" % c["P"])
+        if v is None:
+            ctx.traces_validated += 1
+        else:
+            ctx.violations.append(shrink_reuse(ctx, c, j) or v)
+            if len(ctx.violations) >= 3:
+                return
+
+
+def replay_reuse(ctx, obj):
+    from .. import modular as M
+    r = obj["reuse"]
+    defs = [(nm, F.from_proto(b)) for nm, b in r["defs"]]
+    inl = M.inline(defs)
+    traces = [{k: [float(x) for x in v] for k, v in t.items()} for t in r["traces"]]
+    case = {"defs": defs, "inl": inl, "f": inl["out"], "vars": sorted(F.variables(inl["out"])), "pv": r["pv"], "P": Fraction(obj["P"]),
+            "style": r["style"], "traces": traces, "glitch": r["glitch"], "stream": "replay",
+            "h": int(common.driver_run(["past | " + F.to_proto(inl["out"])])[0][3:].split("|")[0])}
+    bad = [v for (_, j, v) in check_reuse(Ctx(ctx.id, ctx.tier, ctx.seed), [case]) if isinstance(v, Violation) and j == r["judged"]]
+    return (not bad), (bad[0].what if bad else "on every well-formed signal of the batch the dense and the discrete specification object agree")
+
+
 def replay(ctx, obj):
+    if obj.get("reuse"):
+        return replay_reuse(ctx, obj)
     f = F.from_proto(obj["formula"])
     c = {"f": f, "P": Fraction(obj["P"]), "n": obj["n"], "data": {k: [float(x) for x in v] for k, v in obj["data"].items()},
          "vars": F.variables(f) or ["x"], "units_seed": obj.get("units_seed")}
@@ -165,7 +418,11 @@ def replay(ctx, obj):
 
 def run(ctx):
     explore(ctx, ctx.subrng("grid"), ctx.budget(3000, 20000))
+    if len(ctx.violations) < 3:
+        explore_reuse(ctx, ctx.subrng("grid/reuse"), ctx.budget(100, 1500))
 
 
 def search(ctx):
     explore(ctx, ctx.subrng("search"), ctx.budget(3000, 15000))
+    if len(ctx.violations) < 3:
+        explore_reuse(ctx, ctx.subrng("search/reuse"), ctx.budget(300, 1500))
